@@ -519,7 +519,17 @@ fn check(d: &[AQuad], q: &Query, st: &mut Stats) -> Option<Violation> {
     let case = json!({"query": text, "data": quads_nq(d)});
     st.inc("validated");
     let got = run_query(d, &text);
+    UNSPECIFIED.with(|u| u.set(false));
     let expected = eval_query(q, d);
+    if UNSPECIFIED.with(|u| u.get()) {
+        // the query applies an operator to operands for which SPARQL 1.1 defines no result but
+        // allows extensions to define one: only "no panic" is demanded
+        st.inc("skipped_operator_table_gap");
+        return match got {
+            Got::Panic(p) => Some(Violation::new("panic", p, case)),
+            _ => None,
+        };
+    }
     let feat = feature(q);
     match got {
         Got::Panic(p) => Some(Violation::new(format!("panic:{feat}"), format!("{text} panicked: {p}"), case)),
